@@ -38,6 +38,11 @@ def uris_for(model):
     out = []
     for u in sorted(model.all_uri_prefixes()):
         out += [u + "1", u, u + "x/y", u[:-1], u + "a%3Ab", u + "%20z%25"]   # the last two: percent-encoded octets stay as they are
+    # tails by which one registered URI prefix extends another, transplanted behind every URI prefix (a rendering of such a
+    # URI under a sibling prefix then falls under the longer, foreign prefix)
+    ups = sorted(model.all_uri_prefixes())
+    tails = sorted({q[len(p_):] for p_ in ups for q in ups if q != p_ and q.startswith(p_)})
+    out += [p_ + t + "1" for p_ in ups for t in tails]
     out += ["http://nope/1", "urn:zzz"]
     seen, res = set(), []
     for u in out:
@@ -237,8 +242,12 @@ def render(elements, ows, param=None):
     """elements: [(type, q)]; ows = (after comma, before semicolon, after semicolon) each '' or ' ';
     param: optional media-type parameter written before the weight of every element (RFC 7231: parameters precede q)."""
     parts = []
-    for t, q in elements:
-        mt = t if param is None else f"{t}{ows[1]};{ows[2]}{param}"
+    which = "all"
+    if param is not None and "@" in param:      # "charset=utf-8@first": the parameter is written on the first (resp. last) element only
+        param, which = param.split("@")
+    for k_, (t, q) in enumerate(elements):
+        here = param is not None and (which == "all" or (which == "first" and k_ == 0) or (which == "last" and k_ == len(elements) - 1))
+        mt = t if not here else f"{t}{ows[1]};{ows[2]}{param}"
         parts.append(mt if q is None else f"{mt}{ows[1]};{ows[2]}q={q}")
     return ("," + ows[0]).join(parts)
 
@@ -501,10 +510,11 @@ def run_unit(unit, ctx):
                     fails, header = check_header(combo, ows)
                     if n <= 2 and not fails:
                         # media-type parameters precede the weight (RFC 7231 5.3.2): they must not hide it
-                        f2, h2 = check_header(combo, ows, "charset=utf-8")
-                        ctx.count("headers_with_media_type_parameter")
-                        if f2:
-                            ctx.violation("C18/" + f2[0][0].replace("accept/", "accept/with-media-type-parameter/"), f2[0][1], {"kind": "accept", "elements": [list(e) for e in combo], "ows": list(ows), "param": "charset=utf-8"})
+                        for prm in ("charset=utf-8",) + (("charset=utf-8@first", "charset=utf-8@last") if n == 2 else ()):
+                            f2, h2 = check_header(combo, ows, prm)
+                            ctx.count("headers_with_media_type_parameter")
+                            if f2:
+                                ctx.violation("C18/" + f2[0][0].replace("accept/", "accept/with-media-type-parameter/"), f2[0][1], {"kind": "accept", "elements": [list(e) for e in combo], "ows": list(ows), "param": prm})
                     if n <= 2 and not fails:
                         # the same header written in upper case / title case (media types and the weight's name are case-insensitive)
                         for case in ("upper", "title"):
